@@ -136,3 +136,16 @@ def balance2_watch(maxseq=3, **kw):
 
 
 ALL.update(chain3_lazy=chain3_lazy, tee_rejoin_eph=tee_rejoin_eph, balance3=balance3, balance2_watch=balance2_watch)
+
+
+def eph_multi(maxseq=3, **kw):
+    """a consumer mixing a synchronized source with an ephemeral source that carries two topics per message: an ephemeral set
+    must be complete for its subscription even when the other source completes between its per-topic messages"""
+    return Topo('EphMulti', {
+        'S': dict(nout=1, beh=beh('origin', tseq=T2)),
+        'A': dict(srcs=[src('S', topics=[('main', 'main')])], nout=1),
+        'K': dict(srcs=[src('A', topics=[('main', 'a')]), src('S', eph=1, topics=[('main', 'm'), ('b', 'mb')])]),
+    }, maxseq=maxseq, **kw)
+
+
+ALL.update(eph_multi=eph_multi)
